@@ -656,4 +656,29 @@ func TagEquivalence(k *fw.Case) {
 			k.Distinct("tageq", pr[1], c1.Pool, b, len(names), evString(o2.Events))
 		}
 	}
+	// ... and on a rule set that removals have emptied (not "cleared"): whatever the variant without a tag
+	// says about it (nothing to run: an error, or nil), the tagged twin says the same
+	if r.Intn(2) == 0 {
+		all := rs.Names()
+		eng.RB.RemoveRules(all)
+		pool.Pool.RemoveRules(all)
+		for _, pr := range append(pairs, [2]string{MMix, MMixStop}) {
+			for _, t := range []*Target{eng, pool} {
+				c1 := Call{Method: pr[0], B: true, Names: all[:2], Pool: t.Pool != nil}
+				c2 := Call{Method: pr[1], B: true, Names: all[:2], Pool: t.Pool != nil}
+				o1 := t.Invoke(c1, NewLog())
+				o2 := t.Invoke(c2, NewLog())
+				k.Eval(2)
+				k.Count("tag_equivalence_pairs_on_an_emptied_set", 1)
+				if (o1.Err == nil) != (o2.Err == nil) || (o1.Panic == nil) != (o2.Panic == nil) || len(o1.Events)+len(o2.Events) > 0 {
+					m := pr[1]
+					if c1.Pool {
+						m = "pool." + m
+					}
+					k.Violate(m+"/differs-from-tagless-on-emptied-set", fmt.Sprintf("after every rule was removed, %s with a tag that nobody sets returned err nil=%v (panic %v), the variant without a tag %s err nil=%v (panic %v)", m, o2.Err == nil, o2.Panic, pr[0], o1.Err == nil, o1.Panic),
+						map[string]interface{}{"rule_text": rs.Text})
+				}
+			}
+		}
+	}
 }
